@@ -50,8 +50,20 @@ def refusal_if(stmts, code):
     return None
 
 
-@generator("GenGateway", SRC)
-def gen_gateway(tree):
+def module_consts(mod):
+    """module-level NAME = <literal> bindings (literals moved behind names are still literals)"""
+    out = {}
+    for n in mod.body:
+        if isinstance(n, ast.Assign) and len(n.targets) == 1 and isinstance(n.targets[0], ast.Name):
+            try:
+                out[n.targets[0].id] = ast.literal_eval(n.value)
+            except (ValueError, SyntaxError):
+                pass
+    return out
+
+
+def read_ast(tree):
+    """first reader: the shapes of the upstream source, read with ast (fail closed -> second reader)"""
     mod, _ = parse(tree, SRC)
     app = find_func(mod, "pyro_app")
     proc = find_func(mod, "process_pyro_request")
@@ -137,21 +149,119 @@ def gen_gateway(tree):
         if isinstance(n, ast.Assign) and len(n.targets) == 1 and is_attr(n.targets[0], "pyro_app", "ns_regex"):
             default_pat = const_str(n.value, "default expose pattern")
     need(default_pat is not None, "default pyro_app.ns_regex not found")
+    # index page: how many listed names are detailed -- `[...][:N]`, N a literal or a module-level name
+    home = find_func(mod, "return_homepage")
+    consts = module_consts(mod)
+    limits = []
+    for sub in ast.walk(home):
+        if isinstance(sub, ast.Subscript) and isinstance(sub.slice, ast.Slice) and sub.slice.lower is None and sub.slice.step is None \
+                and sub.slice.upper is not None:
+            u = sub.slice.upper
+            if isinstance(u, ast.Constant) and isinstance(u.value, int):
+                limits.append(u.value)
+            elif isinstance(u, ast.Name) and isinstance(consts.get(u.id), int):
+                limits.append(consts[u.id])
+            else:
+                raise GenError("index page limit is not a literal")
+    need(len(limits) == 1 and limits[0] >= 0, "index page limit not found exactly once")
+    return {"mode": "ast", "prefix": prefix[0], "allowed": allowed, "preflight": preflight, "key_param": key_param[0],
+            "key_header": key_header[0], "meta": meta[0], "oneway": oneway[0], "sep": seps[0], "default_pattern": default_pat,
+            "index_limit": limits[0],
+            "guards_first": guards_first, "key_refuses": key_refuses, "pat_refuses": pat_refuses,
+            "ast_sha": {"pyro_app": ast_sha(app), "process_pyro_request": ast_sha(proc)}}
+
+
+BASELINE = {"prefix": "pyro/", "allowed": ["GET", "POST", "OPTIONS"], "preflight": "OPTIONS", "key_param": "$key",
+            "key_header": "HTTP_X_PYRO_GATEWAY_KEY", "meta": "$meta", "oneway": "oneway", "sep": ","}
+
+
+def read_probe(tree):
+    """second reader: the routing constants of the upstream gateway are CONFIRMED behaviourally on the tree under test by
+    driving the real pyro_app behind the recording stubs of the C20 harness (so helper extraction, renamed locals, literals
+    behind names, reworded messages, extra logging do not matter).  Any probe that disagrees -> GenError (fail closed)."""
+    from tools.gen.gen import tree_module
+    gw = tree_module(tree, "Pyro5.utils.httpgateway")
+    from tools.harness import C20 as H
+    B = BASELINE
+
+    def run(**over):
+        return H.run_impl(H.base_case(**over))
+
+    def lookups(o):
+        return [e[1] for e in o["log"] if e[0] == "lookup"]
+
+    def invokes(o):
+        return [e for e in o["log"] if e[0] == "invoke"]
+
+    def refused(o, status):
+        return o["crash"] is None and o.get("status") == status and not o["log"]
+    # prefix + call methods
+    for m in ("GET", "POST"):
+        o = run(cfg__key=None, rq__method=m)
+        need(o["crash"] is None and lookups(o) == ["http.obj"] and len(invokes(o)) == 1 and invokes(o)[0][3] == "echo"
+             and invokes(o)[0][5] == {"msg": "hi"}, "probe: %s /pyro/http.obj/echo?msg=hi is not forwarded as echo(msg='hi')" % m)
+    need(refused(run(cfg__key=None, rq__method="OPTIONS"), 200), "probe: OPTIONS is not answered 200 without traffic")
+    for m in ("HEAD", "PUT", "DELETE", "PATCH", "get", "OPTION", None):
+        need(refused(run(cfg__key=None, rq__method=m), 405), "probe: method %r is not refused with 405" % (m,))
+    for pth in ("/pyr/http.obj/echo", "/pyro", "/pyrox/http.obj/echo", "/Pyro/http.obj/echo"):
+        need(refused(run(cfg__key=None, rq__path=pth), 404), "probe: %r is not a 404 without traffic" % pth)
+    # key parameter / header, both guards refuse without traffic
+    o = run(rq__qs="$key=secret&msg=hi")
+    need(o["crash"] is None and len(invokes(o)) == 1 and invokes(o)[0][5] == {"msg": "hi"}, "probe: $key=<right key> is not accepted and stripped")
+    o = run(rq__keyhdr="secret")
+    need(o["crash"] is None and len(invokes(o)) == 1, "probe: the key header is not accepted")
+    for qs, hdr in (("msg=hi", ""), ("key=secret", ""), ("$key=secre", ""), ("$key=", ""), ("msg=hi", "nope"), ("$key=secret", "nope")):
+        need(refused(run(rq__qs=qs, rq__keyhdr=hdr), 403), "probe: request with qs %r header %r on a keyed gateway is not a 403 without traffic" % (qs, hdr))
+    need(refused(run(rq__method="POST", rq__qs="msg=hi"), 403), "probe: keyless POST is not refused")
+    key_refuses = True
+    for pth in ("/pyro/Pyro.NameServer/list", "/pyro/xhttp.obj/echo", "/pyro/Http.obj/echo"):
+        need(refused(run(cfg__key=None, rq__path=pth), 403), "probe: %r (outside the pattern) is not a 403 without traffic" % pth)
+    pat_refuses = True
+    # pseudo member
+    o = run(cfg__key=None, rq__path="/pyro/http.obj/$meta", rq__qs="")
+    need(o["crash"] is None and o.get("status") == 200 and not invokes(o) and lookups(o) == ["http.obj"], "probe: $meta is not answered from the metadata")
+    # oneway option and separator
+    for opt, want in (("oneway", True), ("x,oneway", True), ("onewayx", False), ("x;oneway", False), (" oneway", False)):
+        o = run(cfg__key=None, rq__options=opt)
+        need(o["crash"] is None and len(invokes(o)) == 1 and bool(invokes(o)[0][6]) == want, "probe: options header %r gives oneway=%r" % (opt, not want))
+    # path split
+    o = run(cfg__key=None, rq__path="/pyro/http.o/b/echo", be__registry=[["http.o/b", "PYRO:o2@h:402"], ["http.o", "PYRO:o9@h:409"]])
+    need(o["crash"] is None and lookups(o) == ["http.o/b"], "probe: /pyro/http.o/b/echo does not address object 'http.o/b'")
+    need(refused(run(cfg__key=None, rq__path="/pyro/http.obj"), 404) and refused(run(cfg__key=None, rq__path="/pyro/a\nb/c"), 404),
+         "probe: a path without <object>/<member> is not a 404")
+    # index page limit
+    many = [["http.n%02d" % i, "PYRO:o%d@h:%d" % (i, 400 + i)] for i in range(60)]
+    o = run(rq__path="/pyro/", rq__qs="", be__registry=many)
+    need(o["crash"] is None and o.get("status") == 200, "probe: index page failed")
+    limit = len(lookups(o))
+    need(1 <= limit < 60, "probe: index page detailed %d of 60 names" % limit)
+    default_pat = getattr(gw.pyro_app, "ns_regex", None)
+    need(isinstance(default_pat, str), "default expose pattern is not a string")
+    return dict(B, mode="probed", default_pattern=default_pat, index_limit=limit, guards_first=True,
+                key_refuses=key_refuses, pat_refuses=pat_refuses, ast_sha={})
+
+
+@generator("GenGateway", SRC)
+def gen_gateway(tree):
+    try:
+        f = read_ast(tree)
+    except GenError as x:
+        why = str(x)
+        f = read_probe(tree)
+        f["ast_reader"] = why
     out = HEADER % SRC
-    out += "Definition path_prefix : list N := %s.   (* %r *)\n" % (ctext(prefix[0]), prefix[0])
-    out += "Definition allowed_methods : list (list N) := %s.   (* %r *)\n" % (clist([ctext(m) for m in allowed]), allowed)
-    out += "Definition preflight_method : list N := %s.   (* %r *)\n" % (ctext(preflight), preflight)
-    out += "Definition key_param : list N := %s.   (* %r *)\n" % (ctext(key_param[0]), key_param[0])
-    out += "Definition meta_member : list N := %s.   (* %r *)\n" % (ctext(meta[0]), meta[0])
-    out += "Definition oneway_option : list N := %s.   (* %r *)\n" % (ctext(oneway[0]), oneway[0])
-    out += "Definition options_sep : N := %s.\n" % cN(ord(seps[0]))
-    out += "Definition default_pattern : list N := %s.   (* %r *)\n" % (ctext(default_pat), default_pat)
-    out += "(* process_pyro_request: every top-level statement that mentions the name server / proxy machinery comes after\n"
-    out += "   the key guard (statement %d) and the pattern guard (statement %d); backend statements: %s *)\n" % (i_key[0], i_pat[0], back)
-    out += "Definition guards_precede_backend : bool := %s.\n" % cbool(guards_first)
-    out += "Definition key_guard_refuses_by_return : bool := %s.\n" % cbool(key_refuses)
-    out += "Definition pattern_guard_refuses_by_return : bool := %s.\n" % cbool(pat_refuses)
-    return out, {"prefix": prefix[0], "allowed": allowed, "preflight": preflight, "key_param": key_param[0],
-                 "key_header": key_header[0], "meta": meta[0], "oneway": oneway[0], "default_pattern": default_pat,
-                 "guards_first": guards_first, "key_refuses": key_refuses, "pat_refuses": pat_refuses,
-                 "ast_sha": {"pyro_app": ast_sha(app), "process_pyro_request": ast_sha(proc)}}
+    out += "Definition path_prefix : list N := %s.   (* %r *)\n" % (ctext(f["prefix"]), f["prefix"])
+    out += "Definition allowed_methods : list (list N) := %s.   (* %r *)\n" % (clist([ctext(m) for m in f["allowed"]]), f["allowed"])
+    out += "Definition preflight_method : list N := %s.   (* %r *)\n" % (ctext(f["preflight"]), f["preflight"])
+    out += "Definition key_param : list N := %s.   (* %r *)\n" % (ctext(f["key_param"]), f["key_param"])
+    out += "Definition meta_member : list N := %s.   (* %r *)\n" % (ctext(f["meta"]), f["meta"])
+    out += "Definition oneway_option : list N := %s.   (* %r *)\n" % (ctext(f["oneway"]), f["oneway"])
+    out += "Definition options_sep : N := %s.\n" % cN(ord(f["sep"]))
+    out += "Definition default_pattern : list N := %s.   (* %r *)\n" % (ctext(f["default_pattern"]), f["default_pattern"])
+    out += "Definition index_limit : nat := %d%%nat.   (* listed names detailed on the index page *)\n" % f["index_limit"]
+    out += "(* process_pyro_request: everything that mentions the name server / proxy machinery comes after the key guard and the\n"
+    out += "   pattern guard, which both answer by return (read from the ast, or confirmed by probing the function) *)\n"
+    out += "Definition guards_precede_backend : bool := %s.\n" % cbool(f["guards_first"])
+    out += "Definition key_guard_refuses_by_return : bool := %s.\n" % cbool(f["key_refuses"])
+    out += "Definition pattern_guard_refuses_by_return : bool := %s.\n" % cbool(f["pat_refuses"])
+    return out, f
